@@ -135,6 +135,9 @@ func (fr *frame) get(key ssa.Value) value {
 		return constValue(key)
 	case *ssa.Global:
 		fr.i.ensureInit(key.Pkg, fr)
+		if fr.i.initState[key.Pkg] == 4 && !zeroInitOK[key.Pkg.Pkg.Path()] {
+			unsupported("global %s of a package whose initialiser is not run", key)
+		}
 		return fr.i.global(key)
 	}
 	if r, ok := fr.env[key]; ok {
@@ -497,14 +500,19 @@ func loc(fset *token.FileSet, pos token.Pos) string {
 
 var neverInit = map[string]bool{"runtime": true, "unsafe": true, "sync": true, "sync/atomic": true,
 	"syscall": true, "os": true, "reflect": true, "testing": true, "os/signal": true, "net": true,
-	"crypto/tls": true, "crypto/x509": true, "net/http": true, "log": true, "flag": true,
+	"crypto/tls": true, "crypto/x509": true, "log": true, "flag": true,
 	"encoding/gob": true, "encoding/json": true, "math/rand": true, "math/rand/v2": true,
 	"crypto/rand": true, "os/exec": true, "os/user": true, "vendor/golang.org/x/net/http2/hpack": true,
 	"golang.org/x/net/http2": true, "golang.org/x/net/http2/hpack": true}
 
+// packages whose globals are meaningful when zero-initialised (locks, pools,
+// counters) even though their initialiser is never run
+var zeroInitOK = map[string]bool{"sync": true, "sync/atomic": true, "runtime": true, "internal/godebug": true,
+	"internal/race": true, "internal/bytealg": true, "internal/cpu": true}
+
 func skipInit(path string) bool {
 	return neverInit[path] || strings.HasPrefix(path, "internal/") || strings.HasPrefix(path, "runtime/") ||
-		strings.HasPrefix(path, "crypto/") || strings.HasPrefix(path, "vendor/") ||
+		strings.HasPrefix(path, "crypto/") || strings.HasPrefix(path, "vendor/golang.org/x/crypto") ||
 		strings.HasPrefix(path, "github.com/prometheus/") || strings.HasPrefix(path, "google.golang.org/")
 }
 
@@ -515,7 +523,7 @@ func (i *interpreter) ensureInit(p *ssa.Package, caller *frame) {
 		return
 	}
 	if skipInit(p.Pkg.Path()) {
-		i.initState[p] = 2
+		i.initState[p] = 4 // never run: its globals must not be read
 		return
 	}
 	i.initState[p] = 1
